@@ -106,6 +106,9 @@ var MutOps = []mutOp{
 		for _, f := range w.Files {
 			for _, im := range f.Imports {
 				g := w.ByName(im.Path)
+				if g == nil {
+					continue // an import of a file outside the model (option schema, injected missing file)
+				}
 				g.Imports = append(g.Imports, Import{Path: f.Name})
 				return true
 			}
@@ -285,6 +288,35 @@ var MutOps = []mutOp{
 		for _, fl := range rapid.SampledFrom(c).Draw(t, "m").M.Fields {
 			if fl.Type == "map" {
 				fl.MapKey = rapid.SampledFrom([]string{"float", "double", "bytes"}).Draw(t, "key")
+				return true
+			}
+		}
+		return false
+	}},
+	{"map-enum-value-first-nonzero", func(t *rapid.T, w *Workspace) bool {
+		// an enum used as a map value must have zero as its first value
+		for _, f := range w.Files {
+			var hit *Enum
+			f.AllMessages(func(m *Message) {
+				for _, fl := range m.Fields {
+					if fl.Type == "map" && fl.MapVal == "enum" && hit == nil {
+						for _, g := range w.Files {
+							g.AllEnums(func(e *Enum) {
+								if e.FQN == fl.TypeFQN && e.Closed {
+									hit = e
+								}
+							})
+						}
+					}
+				}
+			})
+			if hit != nil {
+				hit.Values[0].Number = 7
+				for i := 1; i < len(hit.Values); i++ {
+					if hit.Values[i].Number == 7 {
+						hit.Values[i].Number = 8
+					}
+				}
 				return true
 			}
 		}
